@@ -52,6 +52,31 @@ def gen_trunc(rng):
     return {"kind": "truncate", "x": [str(v) for v in x], "y": [str(v) for v in y], "l": str(l), "r": str(r), "lr": lr, "rr": rr}
 
 
+def gen_burst(rng):
+    """readings every 4096 s for days plus a burst of readings 2^-10 s apart; ratio bounds that fall strictly between
+    two burst samples (closer to a sample than 1e-9 of the span, and never on it).  Everything is a binary fraction with
+    few bits, so the ratio -> position conversion is exact in floating point and the cut is decided, not rounded."""
+    k = rng.randint(6, 12)
+    span = Fraction(2 ** k * 4096)
+    base = [Fraction(4096 * i) for i in range(2 ** k + 1)]
+    keep = sorted(set([0, 2 ** k] + [rng.randrange(2 ** k + 1) for _ in range(rng.randint(2, 8))]))
+    p = Fraction(4096 * rng.randrange(1, 2 ** k)) + rng.choice([0, 1024, 2048])
+    burst = [p + Fraction(j, 1024) for j in range(rng.randint(3, 6))]
+    x = sorted(set([base[i] for i in keep] + burst))
+    n = len(x)
+
+    def between():
+        j = rng.randrange(len(burst) - 1)
+        return (burst[j] + rng.choice([Fraction(1, 4096), Fraction(1, 2048), Fraction(3, 4096)])) / span
+    lr, rr = rng.choice([(True, True), (True, False), (False, True)])
+    l = between() if lr else rng.choice([x[0], burst[0] - Fraction(1, 2)])
+    r = between() if rr else rng.choice([x[-1], burst[-1] + Fraction(1, 2)])
+    if lr and rr and l >= r:
+        l, r = Fraction(0), r
+    return {"kind": "truncate", "x": [str(v) for v in x], "y": [str(v) for v in rng.values(n)], "l": str(l), "r": str(r),
+            "lr": lr, "rr": rr, "burst": True}
+
+
 def gen_bigint(rng):
     """integer time stamps beyond 2**53 (nanoseconds since the epoch) closer together than float64 can tell apart; one
     bound is an exact sample (a Python int), the other a float far outside ("to the end" / "from the start")"""
@@ -199,6 +224,8 @@ def cases(rng, tier):
         yield gen_bigint(rng)
     for _ in range(max(20, na // 10)):
         yield gen_datetime(rng)
+    for _ in range(max(20, na // 10)):
+        yield gen_burst(rng)
     for _ in range(na):
         yield gen_trunc(rng)
     for _ in range(nb):
